@@ -16,8 +16,9 @@ lock file, flock, open of the temp file, the write callback, rename, an ignored 
 creator's process is killed (`Act.crash`: the kernel closes its descriptors, which releases its flock;
 files stay as they are) or its future is dropped at an await point (`Act.cancel`; the only difference to a
 crash is the detached `flock` thread of `lock_file_exclusive_with_blocking_thread`, which still acquires
-and then immediately drops the lock: `zombieWait`/`zombieHeld`). There are no drop guards in the code:
-a dropped future closes the temp file and the lock file and leaves `dest.part` and `dest.lock` behind.
+and then immediately drops the lock: `zombieWait`/`zombieHeld`; and, since the repair of finding
+C16-cancel-inflight-write, that a future dropped inside the write callback unlinks `dest.part` before the
+lock file is closed). A dropped future leaves `dest.lock` behind.
 
 Assumptions built into the transition system (stated in checks/C16.json): nobody but the modelled
 creators touches the three names (in particular nobody deletes `dest`); `metadata(dest)` answers
@@ -260,21 +261,37 @@ def crashP (s : State) (p : Pid) : Option State :=
                             lost := lostAfterCrash s p, okAt := okAtAfterCrash s p }
   | none => some { s with pc := upd s.pc p .dead, lost := lostAfterCrash s p, okAt := okAtAfterCrash s p }
 
-/-- creator `p`'s future is dropped at one of its await points (:96 → :222, :126, :143) -/
+/-- creator `p`'s future is dropped at one of its await points (:96 → :222, :126, :143).
+Inside `write_fn` (repaired code, fix "remove the temp file when the future is dropped"): the callback's
+file is dropped, then the drop guard `RemoveTempFileOnDrop` unlinks `dest.part`, then `locked_file` is
+closed (locals are dropped in reverse order of declaration; the guard is declared after `locked_file`). -/
 def cancelP (s : State) (p : Pid) : Option State :=
   match s.pc p with
   | .waiting i => some { s with pc := upd s.pc p (.zombieWait i) }
   | .writing i _ _ =>
-    some { s with pc := upd s.pc p .dead, holder := release s.holder i p,
-                  trace := (p, .closeLock) :: (p, .closePart) :: s.trace }
+    some { s with pc := upd s.pc p .dead, part := none, holder := release s.holder i p,
+                  trace := (p, .closeLock) :: (p, .unlinkPart) :: (p, .closePart) :: s.trace }
   | .exUnlinked => some { s with pc := upd s.pc p .dead }
   | _ => none
+
+/-- the code before that repair: no drop guard, a future dropped inside `write_fn` leaves `dest.part` -/
+def cancelPLegacy (s : State) (p : Pid) : Option State :=
+  match s.pc p with
+  | .writing i _ _ =>
+    some { s with pc := upd s.pc p .dead, holder := release s.holder i p,
+                  trace := (p, .closeLock) :: (p, .closePart) :: s.trace }
+  | _ => cancelP s p
 
 def next (pl : Pid → Content) (s : State) : Act → Option State
   | .step p => stepP pl s p
   | .fail p => failP s p
   | .crash p => crashP s p
   | .cancel p => cancelP s p
+
+/-- the transition function of the code before the repair (used only for `C16_legacy_counterexample_*`) -/
+def nextLegacy (pl : Pid → Content) (s : State) : Act → Option State
+  | .cancel p => cancelPLegacy s p
+  | a => next pl s a
 
 /-- every state the system can be in: any number of creators, any schedule, any faults -/
 inductive Reachable (pl : Pid → Content) : State → Prop
